@@ -40,6 +40,7 @@ func moduleFile(k int, name string, deps [][2]interface{}, depNames []string, pu
 		fn("Bump", []Param{{"n", TInt}}, []Type{TInt}, set("Count", bin("+", vr("Count"), vr("n"))), OpAssign{"secret", "+", il(1)}, ret(vr("Count"))),
 		fn("Label", []Param{{"s", TString}}, []Type{TString}, ret(bin("+", bin("+", vr("Name"), sl(":")), vr("s")))),
 		fn("unused", nil, nil, pr(sl("never"))),
+		fn("tail", nil, nil, set("Name", bin("+", vr("Name"), sl("")))), // only ever called from this file's top-level code
 	}
 	// cross-file calls
 	sum := Expr(il(0))
@@ -50,8 +51,15 @@ func moduleFile(k int, name string, deps [][2]interface{}, depNames []string, pu
 	if std {
 		st = append(st, fn("Starts", []Param{{"s", TString}}, []Type{TBool}, ret(Call{Alias: "strings", Fn: "HasPrefix", Args: []Expr{vr("s"), vr("Name")}})))
 	}
+	// a definition whose initialiser is a call: top-level calls also exist in files reached along several paths
+	st = append(st, def("Cached", bin("+", call("helper"), il(0))))
 	if !pure {
-		st = append(st, pr(sl("init"), il(K), call("Get"), call("Deep")), set("Count", bin("+", vr("Count"), il(1))), ExprStmt{call("Bump", il(2))}, pr(sl("init-done"), il(K), vr("Count")))
+		st = append(st, pr(sl("init"), il(K), call("Get"), call("Deep")), set("Count", bin("+", vr("Count"), il(1))), ExprStmt{call("Bump", il(2))})
+		// change the state of every imported file (its public and private globals) before any other importer is processed
+		for _, d := range deps {
+			st = append(st, pr(sl("dep"), Call{Alias: d[0].(string), Fn: "Bump", Args: []Expr{il(K)}}))
+		}
+		st = append(st, ExprStmt{call("tail")}, pr(sl("init-done"), il(K), vr("Count")))
 	}
 	if salt >= 0 {
 		st = append(st, RawStmt{fmt.Sprintf("// variant %d", salt)})
